@@ -51,7 +51,7 @@ REQUIRED_COUNTERS = ['deformed_objects', 'rows_relabelled_and_compared',
                      'error_images_compared', 'noise_tables_compared',
                      'joint_laws_compared', 'histories_checked',
                      'history_steps', 'permutation_queries',
-                     'same_object_axis_queries']
+                     'same_object_axis_queries', 'hadamard_helper_masks']
 
 LET2BITS = {'I': (0, 0), 'X': (1, 0), 'Y': (1, 1), 'Z': (0, 1)}
 BITS2LET = {v: k for k, v in LET2BITS.items()}
@@ -216,6 +216,35 @@ def check_deformation(out, cls, size, name, kwargs, rng, tier):
             else:
                 continue
             break
+    # (v) the library's Hadamard helper applied to the undeformed rows with
+    # the qubit mask in any form a caller may hold it in gives the same code
+    ident = {'X': 'X', 'Y': 'Y', 'Z': 'Z'}
+    hadam = {'X': 'Z', 'Y': 'Y', 'Z': 'X'}
+    if all(d in (ident, hadam) for d in perm) and n <= 400:
+        from panqec import bpauli
+        idx = np.array([d == hadam for d in perm])
+        H0d = base.stabilizer_matrix.toarray().astype('uint8')
+        H1d = deformed.stabilizer_matrix.toarray().astype('uint8')
+        forms = {'bool-array': idx, 'bool-list': [bool(x) for x in idx],
+                 'int64-array': idx.astype(np.int64),
+                 'uint8-array': idx.astype(np.uint8),
+                 'int-list': [int(x) for x in idx]}
+        for fk, mask in forms.items():
+            out.count('hadamard_helper_masks')
+            try:
+                got = np.asarray(bpauli.apply_deformation(mask, H0d.copy()))
+            except Exception as e:
+                from pv.common import panqec_frame
+                if panqec_frame(e) is None:
+                    raise
+                out.violation(f'{mech}/apply_deformation/{fk}/raises',
+                              f'{type(e).__name__}: {e}', desc)
+                continue
+            if got.shape != H1d.shape or not np.array_equal(got % 2, H1d):
+                out.violation(f'{mech}/apply_deformation/{fk}',
+                              'apply_deformation(mask, H) with the mask of '
+                              'Hadamard qubits is not the deformed code',
+                              dict(desc, mask_form=fk))
     out.case(desc, nontrivial=changed > 0,
              sample=dict(desc, n=n, rows_changed=changed, ok=ok))
     return perm
